@@ -181,7 +181,9 @@ def parseTr? (s : String) : Option (List (String × Bool × Bytes)) :=
     | _ => none)
 
 def parseRpc? : String → Option Rpc
-  | "u" => some .unary | "s" => some .serverStream | "c" => some .clientStream | _ => none
+  | "u" => some .unary | "s" => some .serverStream | "c" => some .clientStream
+  -- upper case: the harness ran the request through a real net/http server (same expected response)
+  | "U" => some .unary | "S" => some .serverStream | "C" => some .clientStream | _ => none
 
 def parseInj? : String → Option Inj
   | "none" => some .none | "router" => some .router | "bind" => some .bind | "decode" => some .decode
